@@ -1,20 +1,99 @@
 from check import run_diff_property
 
+
+def peer_ledger(o, i):
+    """peer-side window ledgers evaluated on the IMPLEMENTATION's frames: a concrete failing input when they break"""
+    try:
+        kind = o.split(' ', 1)[0]
+        if kind == 'h2tx':
+            kv = dict(t.split('=', 1) for t in o.split(' ')[1:])
+            conn, stream, init, maxf = 65535, 65535, 65535, 16384
+            if kv.get('greet', '-') != '-':
+                for e in kv['greet'].split(';'):
+                    a, b = e.split('.')
+                    if a == '4':
+                        stream = init = int(b)
+                    if a == '5':
+                        maxf = int(b)
+            toks, outs = kv['ev'].split(','), i.split('/')
+            body = sent = 0
+            ended = saw_end = False
+            for t, out in zip(toks, outs):
+                k, rest = t[:1], t[2:]
+                if k == 'B' and not ended:
+                    body += int(rest)
+                elif k == 'E':
+                    ended = True
+                elif k == 'W':
+                    a, b = rest.split('.')
+                    if a == '0':
+                        conn += int(b)
+                    else:
+                        stream += int(b)
+                elif k == 'S':
+                    a, b = rest.split('.')
+                    if a == '4':
+                        stream += int(b) - init
+                        init = int(b)
+                    if a == '5':
+                        maxf = int(b)
+                for f in filter(None, out.split('+')):
+                    if f.startswith('d'):
+                        n, es = f[1:].split(':')
+                        n = int(n)
+                        if n > maxf or (n > 0 and (n > conn or n > stream)):
+                            return True          # DATA beyond the peer's window / max frame size
+                        conn -= n
+                        stream -= n
+                        sent += n
+                        saw_end = saw_end or es == '1'
+                    elif f.startswith('R') or f.startswith('G'):
+                        return False             # the upload was aborted (overflowing update): no liveness claim
+                if body - sent > 0 and min(conn, stream) > 0 and maxf > 0:
+                    return True                  # queued data, both windows open, and the writer sent nothing more
+            # liveness: the schedule ends with everything opened, so all queued data and END_STREAM must be out
+            return sent != body or (ended and not saw_end)
+        if kind == 'h2rx':
+            toks, outs = o.split('ev=')[1].split(','), i.split('/')
+            charged = returned = 0
+            for t, out in zip(toks, outs):
+                fs = [f for f in out.split('+') if f]
+                if t.startswith('D:'):
+                    sid, ln, pad, es = t[2:].split('.')
+                    L = int(ln) + (0 if pad == '-' else int(pad) + 1)
+                    if not any(f.endswith(':3') and (f.startswith('R') or f.startswith('G')) for f in fs):
+                        charged += L
+                returned += sum(int(f.split(':')[1]) for f in fs if f.startswith('W0:'))
+            return charged - returned >= 4096    # connection credit never returned although everything was read / closed
+    except Exception:
+        return False
+    return False
+
 CFG = dict(
-    streams=[('flow', 3000, 60000, 'http2test'), ('sched', 1000, 20000, 'http2test')],
+    streams=[('flow', 3000, 60000, 'http2test'), ('sched', 1000, 20000, 'http2test'), ('h2rx', 1500, 30000, 'http2test'),
+             ('h2tx', 1500, 30000, 'http2test')],
     oracle_ops=set(),
+    self_evident=peer_ledger,
     twophase_ops={'sched'},
-    http2_ops={'flow', 'sched'},
+    http2_ops={'flow', 'sched', 'h2rx', 'h2tx'},
     rule=("(a) operation sequences on the real inflow / outflow (init, add, take, takeInflows, outflow add/take/available, stream "
           "and connection level) with boundary values 0, 1, 4095..4097, 65535, 2^31-2, 2^31-1, negative and overflowing "
           "updates; every return value, panic and the final counters compared with the model; (b) scheduler sequences "
           "(Consume with stream / connection windows incl. windows driven negative, max frame size): every released DATA "
-          "piece and the connection window compared with the model. non-trivial = sequence with >= 3 operations"),
+          "piece and the connection window compared with the model; (c) h2rx: the real serverConn (deterministic tester) fed "
+          "4-200 events on up to four request streams — DATA of boundary sizes with and without padding (incl. padding-only "
+          "frames), beyond the stream / connection windows, beyond the declared Content-Length, on half-closed and closed "
+          "streams, handler reads of any size at any time, client resets, handler returns before the body ended — comparing "
+          "every WINDOW_UPDATE (stream and connection, exact increments incl. the 4 KiB batching), RST_STREAM and GOAWAY after "
+          "every event; (d) h2tx: the real client transport (upstream's deterministic client-connection tester) uploading a "
+          "body under schedules of body production, WINDOW_UPDATE and SETTINGS_INITIAL_WINDOW_SIZE / MAX_FRAME_SIZE changes "
+          "(windows driven negative, frame size lowered mid-upload), comparing every DATA frame. non-trivial = sequence with "
+          ">= 3 operations"),
     assumptions=[
         "Go int32/uint32 conversions are modelled by wrap32/toU32 (two's complement)",
         "the server's use of these primitives (processData, noteBodyRead, closeStream, sendWindowUpdate) is validated by the server-level streams; finding D14 (double conn-level refund after a reset) is recorded in DESIGN.md",
     ],
-    nontrivial=lambda o, i: o.count(';') >= 2,
+    nontrivial=lambda o, i: o.count(';') >= 2 or o.count(',') >= 2,
 )
 
 
